@@ -154,6 +154,8 @@ func rulesC02(c *Ctx) {
 	R.Rule("R6", "fee limit argument of every pay call = stored FeeReserve or FeeReserve(AmountMsat/1000); backends forward maxFee", 4)
 	R.Rule("R7", "melt quote creation: Amount from the decoded invoice / MPP option, FeeReserve = FeeReserve(Amount) or 0", 3)
 	R.Rule("R8", "every input is counted once: the spent-table insert is a plain INSERT inside one transaction (a repeated secret fails the whole request)", 4)
+	R.Rule("R16", "who signs: every call of the blind-signing primitive lies in the swap or the mint operation (or helpers only they reach); no other operation creates ecash", 3)
+	c.ruleWhoSigns("R16")
 	R.Rule("R14", "which pay call: the call that pays the whole invoice is made only for a quote that is not MPP, the partial call only for an MPP quote and with the stored AmountMsat; at creation the MPP flag is set exactly on the paths that store the partial amount", 4)
 	R.Rule("R13", "melt decision table (shared with C05.R1 / C01.R5): inputs are released and the quote reset only on a definitive failure, spent only on success - a release while the payment can still go out lets the same value be swapped and paid", 20)
 	R.Rule("R12", "the checked-arithmetic helpers are what the guards take them for: OverflowAddUint64 / UnderflowSubUint64 answer 'ok' only when the operation did not wrap, AmountChecked tests the overflow flag of every single addition (shared with C03.R12)", 7)
@@ -1099,4 +1101,58 @@ func boolPhiEdges(v ssa.Value, depth int) (t, f map[Edge]bool, ok bool) {
 		}
 	}
 	return t, f, true
+}
+
+// ruleWhoSigns: ecash comes into existence only where the amount guards of the swap and mint operations stand.
+// Every call of the blind-signing primitive in the mint lies in the swap operation, the mint operation, the signing
+// helper of the reference tree, or a helper new on this tree all of whose callers do (who-may-call; a new operation
+// that signs - change of a melt, a batch variant - is an outflow none of the amount rules has examined).
+func (c *Ctx) ruleWhoSigns(rule string) {
+	R := c.R
+	swap, mintOp := c.V.Op("/v1/swap"), c.V.Op("/v1/mint/{method}")
+	if swap == nil || mintOp == nil {
+		R.Unresolved(rule, "swap / mint operation", "not resolved from the routes")
+		return
+	}
+	allowed := map[*ssa.Function]bool{swap: true, mintOp: true}
+	var okFn func(f *ssa.Function, depth int) bool
+	okFn = func(f *ssa.Function, depth int) bool {
+		f = EnclosingTop(f)
+		if allowed[f] {
+			return true
+		}
+		if depth > 4 || !c.P.IsNewFunc(f) && c.P.FuncKey(f) != "mint.(*Mint).signBlindedMessages" {
+			return false
+		}
+		callers := c.callersOf(f)
+		if len(callers) == 0 {
+			return false
+		}
+		for _, s := range callers {
+			if !okFn(s.Parent(), depth+1) {
+				return false
+			}
+		}
+		return true
+	}
+	n := 0
+	for _, f := range c.P.Funcs {
+		top := EnclosingTop(f)
+		if top.Pkg == nil || !strings.HasPrefix(c.P.Rel(top.Pkg.Pkg.Path()), "mint") {
+			continue
+		}
+		for _, ci := range Calls(f) {
+			d := c.P.Describe(ci)
+			if d.Name != fnSignBlinded && d.Name != "mint.(*Mint).signBlindedMessages" {
+				continue
+			}
+			n++
+			ok := okFn(f, 0)
+			R.Check(rule, c.P.FuncKey(top), "signing call belongs to the swap or mint operation ("+d.Name+")", c.P.InstrPos(ci), ok,
+				"blind signatures are produced only inside the swap and mint operations", "this function signs outputs but is reached from outside the swap and mint operations")
+		}
+	}
+	if n < 3 {
+		R.Unresolved(rule, "signing call sites", fmt.Sprintf("found %d, expected at least 3", n))
+	}
 }
